@@ -184,7 +184,7 @@ def proof_status(prop):
         fh.write("From V Require Import %s.\n" % prop)
         for n in names:
             fh.write('Print Assumptions %s.\n' % n)
-    rc, o, e = _run(["timeout", "600", "coqc", "-Q", COQ, "V", f], cwd=BUILD, timeout=700)
+    rc, o, e = _run(["timeout", "2400", "coqc", "-Q", COQ, "V", f], cwd=BUILD, timeout=2500)
     for ext in (".vo", ".vok", ".vos", ".glob"):
         try:
             os.remove(f[:-2] + ext)
